@@ -438,11 +438,34 @@ Section Packet.
     | ARegisterRelayer addr chains addrs => Ok (set_relayers (aset addr (chains, addrs) (st_relayers s)) s)
     end.
 
+  (** *** types/msgs.go: MsgRecvPacket.ValidateBasic / MsgAcknowledgement.ValidateBasic — the stateless checks BaseApp
+      runs (validateBasicTxMsgs) before any handler: non-zero proof height (Height.IsZero: both components 0), signer
+      a bech32 account address, packet bytes decode without error, Packet.ValidateBasic; acknowledgement bytes
+      non-empty. *)
+  Definition height_zero (h : height) : bool := (fst h =? 0) && (snd h =? 0).
+
+  Definition msg_basic (a : action) : bool :=
+    match a with
+    | ARecv m _ =>
+        negb (height_zero (rm_height m)) &&
+        match bech32_decode (rm_signer m) with Some _ => true | None => false end &&
+        (let '(p, err) := decode (rm_packet m) in negb err && validate_basic p)
+    | AAck m _ _ _ =>
+        negb (height_zero (am_height m)) && negb (is_nil (am_ack m)) &&
+        match bech32_decode (am_signer m) with Some _ => true | None => false end &&
+        (let '(p, err) := decode (am_packet m) in negb err && validate_basic p)
+    | _ => true
+    end.
+
+  (** one delivered message: stateless validation, then the handler *)
+  Definition deliver (env : N) (s : cstate) (a : action) : outcome cstate :=
+    if msg_basic a then exec env s a else Err.
+
   (** BaseApp.runMsgs / ethermint ApplyTransaction: an error or a (recovered) panic leaves the state unchanged. *)
   Definition op := (N * action)%type.
 
   Definition step (s : cstate) (o : op) : cstate * bool :=
-    match exec (fst o) s (snd o) with
+    match deliver (fst o) s (snd o) with
     | Ok s' => (s', true)
     | _ => (s, false)
     end.
